@@ -230,6 +230,8 @@ def run(ctx):
         t = (o or "").split()
         if len(t) == 5 and t[0] == "cost":
             closed[s] = tuple(int(x) for x in t[1:])
+        elif (o or "").startswith("skip model-"):
+            ctx.histogram("closed_forms", "not-evaluated(model time limit)")     # compared on the implementation only
         else:
             ctx.broken.append(("model", "shatree cost", "closed forms not computed: %s -> %s" % (s[:200], o)))
     formula_bad = []
